@@ -90,6 +90,70 @@ CHECKS = {
              "quick": B(12000, 15), "thorough": B(400000, 150, 500)},
         ],
     },
+    "C16": {
+        "level": "exploration",
+        "rule": "2-4 calibration sessions (all eight types, 1-3 ports, m and a/b forms), a parameter churner and a catalogue task are "
+                "interleaved on one vnacal_t by a seeded scheduler at API-call granularity; the table of calibrations and the parameter "
+                "handles are checked against a model after every catalogue operation, every applied calibration against the VnaWorld truth "
+                "and against the same session run alone on a fresh vnacal_t; non-trivial = at least one calibration of a determining "
+                "standard set was applied and compared; distinct = plan fingerprint",
+        "assumptions": [
+            "VnaWorld (physical error-network stub) produces consistent measurements; square calibrations only (1x1..3x3; 16-term up to 2x2)",
+            "which free slot or handle number the library picks is not predicted: uniqueness, find/get agreement and untouched neighbours are",
+            "accuracy is asserted only for standard sets that contain a textbook determining set (three separated reflects per port, a through per port pair, full matrices where leakage is modelled)",
+        ],
+        "expected_probes": ["replace_by_name", "cal_deleted", "param_deleted", "twin_agrees", "property_roots_separate", "refused"],
+        "subchecks": [
+            {"check": "C16", "what": "interleaved sessions, clean configuration", "quick": B(6000, 50), "thorough": B(300000, 700, 100)},
+        ],
+    },
+    "C17": {
+        "level": "exploration",
+        "rule": "one session per run; after add_calibration the applied S-parameters are compared with a twin built from an equivalent "
+                "description chosen by seed bits: standards in another order, through <-> line(0,1;1,0) <-> mapped matrix and reflects "
+                "<-> mapped matrices, full <-> abbreviated measurement matrices (8-term types), common scaling of a and b, one session per "
+                "frequency, E12 <-> UE14; non-trivial = a twin was compared; distinct = plan fingerprint",
+        "assumptions": [
+            "consistent data from VnaWorld (well-conditioned error boxes and devices); agreement required to 1e-7",
+            "port renumbering twins are not generated (listed in the statement; left to the truth comparison of C16)",
+        ],
+        "expected_probes": ["twin_agrees", "twin_permuted", "twin_entry_points", "twin_per_frequency", "twin_e12_ue14", "twin_ab_scaled"],
+        "subchecks": [
+            {"check": "C17", "what": "twin descriptions", "quick": B(5000, 50), "thorough": B(250000, 700, 100)},
+        ],
+    },
+    "C20": {
+        "level": "exploration",
+        "rule": "sessions accumulate standards one at a time in a scheduler-chosen order and attempt vnacal_new_solve after additions "
+                "(repeatedly, also under injected allocation failures); each attempt is classified independently: fewer measured cells "
+                "than in-system unknowns -> must fail with EDOM; contains a textbook determining set of known standards -> must succeed "
+                "and correct an independent device; otherwise nothing is asserted; non-trivial = a determining set was solved and applied",
+        "assumptions": [
+            "the 'determining' class is a sufficient condition from calibration theory (SOL per port + through per pair; redundant double-reflect set for 16-term 2x2), not an exact identifiability test: sets in between are unasserted (the statement's own carve-out)",
+            "unknown counts per type from the table in vnacal_new(3)",
+        ],
+        "expected_probes": ["insufficient_reported", "solve_after_failures"],
+        "subchecks": [
+            {"check": "C20", "what": "accumulate / solve histories", "quick": B(5000, 40), "thorough": B(250000, 500, 100)},
+            {"check": "C20.cal.faulty", "what": "allocation failures inside add and solve", "quick": B(2000, 15), "thorough": B(80000, 200, 100)},
+        ],
+    },
+    "C10": {
+        "level": "exploration",
+        "rule": "vector parameters with 1-16 knots built from constant / linear / first-order rational generating functions are created, "
+                "queried (at knots, between, outside the range by >= 5%) in scheduler-chosen order, used as standards with the frequency "
+                "vector set before or after them, and calibrations are applied between grid points and in different batch orders; "
+                "non-trivial = at least one calibration applied; distinct = plan fingerprint",
+        "assumptions": [
+            "value at a knot must be bit-identical to the supplied value; between knots |value - g(f)| <= 1e-6 for >= 5 knots of a "
+            "function the window can represent; any value must equal that of a fresh twin parameter (history independence)",
+            "misses of the band between 0 and 5% are not asserted (internal slack); noise / sigma splines have no getter and are not decided",
+        ],
+        "expected_probes": ["knot_exact", "interp_ok", "history_independent", "range_refused", "apply_order_independent"],
+        "subchecks": [
+            {"check": "C10", "what": "interpolation and range histories", "quick": B(5000, 40), "thorough": B(250000, 500, 100)},
+        ],
+    },
     "C14": {
         "level": "exploration",
         "rule": "trees built by seeded edit histories over a hard key/value alphabet, exported to the simulated disk, everything "
@@ -122,12 +186,8 @@ PLANNED = {
     "C03": "check under construction (chaos engine, DESIGN.md section 5); not claimed until it exists",
     "C07": "check under construction (store engine); not claimed until it exists",
     "C09": "check under construction (corrupt engine); not claimed until it exists",
-    "C10": "check under construction (cal engine); not claimed until it exists",
     "C11": "check under construction (failure-seeking workloads); not claimed until it exists",
     "C12": "check under construction (allocation-failure enumeration driver); not claimed until it exists",
-    "C16": "check under construction (cal engine with scheduler); not claimed until it exists",
-    "C17": "check under construction (cal engine, twin sessions); not claimed until it exists",
-    "C20": "check under construction (cal engine); not claimed until it exists",
 }
 
 MANIFEST_TEXT = {
@@ -162,6 +222,34 @@ MANIFEST_TEXT = {
         "design_ref": "DESIGN.md section 5 C06",
         "level_note": "trusts the independent readers (sim/readers.h), ArrayModel and vnaconv_* for the expected parameter forms",
         "technique": "deterministic simulation: simulated disk + restart + stream faults, independent-reader and model oracles",
+    },
+    "C16": {
+        "level_text": "seeded exploration of interleavings of logical clients on one vnacal_t against a table/handle model, the "
+                      "VnaWorld truth and solo twins; evidence, not proof",
+        "design_ref": "DESIGN.md section 5 C16",
+        "level_note": "trusts VnaWorld and CalTableModel; schedule = order of API calls (libvna has no internal yield points)",
+        "technique": "deterministic simulation: seeded scheduler over cooperating logical clients, reference model + differential solo twin",
+    },
+    "C17": {
+        "level_text": "seeded exploration of pairs of equivalent descriptions of the same calibration, compared through their applied "
+                      "S-parameters; evidence, not proof",
+        "design_ref": "DESIGN.md section 5 C17",
+        "level_note": "trusts VnaWorld for consistent data; differential oracle (no reference solver)",
+        "technique": "deterministic simulation: twin sessions under scheduler-chosen orders and entry points",
+    },
+    "C20": {
+        "level_text": "seeded exploration of accumulate/solve histories with an independent classification of each standard set; "
+                      "evidence, not proof",
+        "design_ref": "DESIGN.md section 5 C20",
+        "level_note": "classification is sufficient-condition based (see evidence assumptions); allocation faults injected into solve attempts",
+        "technique": "deterministic simulation: scheduler-chosen accumulation orders, repeated solve attempts, fault injection",
+    },
+    "C10": {
+        "level_text": "seeded exploration of query/usage histories of interpolated quantities against generating functions, knot values "
+                      "and fresh twins; evidence, not proof",
+        "design_ref": "DESIGN.md section 5 C10",
+        "level_note": "clauses about noise / sigma splines are not observable through the API and not decided",
+        "technique": "deterministic simulation: history-dependence probes with fresh twins, range-violation injection",
     },
     "C14": {
         "level_text": "seeded exploration of build/export/restart/import cycles over a hard key/value alphabet on a simulated disk with "
